@@ -195,10 +195,12 @@ pub(crate) trait ProtocolRequestBuilder {
 #[async_trait]
 impl ProtocolRequestBuilder for crate::Request {
     async fn into_protocol_request(mut self) -> crate::Result<HttpRequest> {
-        let body = if self.is_empty() == Some(false) {
-            self.take_body().into_bytes().await?
-        } else {
+        // `is_empty()` is `None` for a body of unknown length (e.g. `Body::from_reader(_, None)`):
+        // only a body known to be empty can be skipped
+        let body = if self.is_empty() == Some(true) {
             vec![]
+        } else {
+            self.take_body().into_bytes().await?
         };
 
         let mut headers: Vec<HttpHeader> = self
